@@ -144,7 +144,9 @@ func (vm *VM) Processor_execute(psc *procbuilder.SimConfig, instruct <-chan int,
 		case 0:
 			resp <- procId
 		case 1:
+			verifPoint("start", vm, procId)
 			result, err := vm.Processors[procId].Step(psc)
+			verifPoint("end", vm, procId)
 			resp <- procId
 			if err == nil {
 				resultChan <- result
@@ -446,6 +448,7 @@ func (vm *VM) Step(sc *SimConfig) (string, error) {
 	}
 
 	// Order the step to processors
+	verifPoint("pre", vm, -1)
 	for i := 0; i < len(vm.Processors); i++ {
 		vm.send_chans[i] <- 1
 		vm.wait_proc = vm.wait_proc - 1
@@ -454,6 +457,7 @@ func (vm *VM) Step(sc *SimConfig) (string, error) {
 	for {
 		i := <-vm.recv_chan
 		proc_result := <-vm.result_chans[i]
+		verifPoint("got", vm, i)
 		if proc_result != "" {
 			result += "\tProc: " + strconv.Itoa(i) + "\n"
 			result += proc_result
@@ -464,6 +468,7 @@ func (vm *VM) Step(sc *SimConfig) (string, error) {
 		}
 	}
 
+	verifPoint("post", vm, -1)
 	if debug {
 		result += "\tPost-compute data movement:\n"
 	}
